@@ -1,0 +1,5 @@
+//go:build !verif
+
+package dag
+
+func verifEvent(g *Graph, kind string, id ID, err error) {}
